@@ -17,12 +17,12 @@ for line in p.stdout.splitlines():
         (passed if e["Action"] == "pass" else failed).add(e["Package"] + "::" + e["Test"])
 missing = sorted(want - passed)
 # Timing-sensitive tests (the *Concurrent and timeout tests) fail sporadically when the machine is loaded: a test that
-# is missing after the full run is re-run alone (up to 3 times) and only counts as failing if it never passes.
+# is missing after the full run is re-run alone (up to 8 times) and only counts as failing if it never passes.
 flaky = []
 for m in list(missing):
     pkg, name = m.split("::")
     rel = "." + pkg[len("github.com/valyala/fasthttp"):]
-    for _ in range(3):
+    for _ in range(8):
         r = subprocess.run(["go", "test", "-vet=off", "-count=1", "-run", "^" + name.split("/")[0] + "$", rel], cwd=repo, env=env, capture_output=True, text=True)
         if r.returncode == 0:
             missing.remove(m)
